@@ -1682,8 +1682,14 @@ class Scheduler:
         job.eval_args = eval_args
 
         # Preprocess arguments before sending them to task function.
-        args, kwargs = job.eval_args
-        args, kwargs = job.args = self._preprocess_args(job, args, kwargs)
+        if job.args is None:
+            args, kwargs = job.eval_args
+            args, kwargs = job.args = self._preprocess_args(job, args, kwargs)
+        else:
+            # The job is being re-triggered after waiting for resource limits. Its arguments
+            # were already preprocessed; doing it again would fork Handles a second time and
+            # make their hashes depend on whether the job had to wait.
+            args, kwargs = job.args
 
         # Check cache using eval_hash as key.
         job.eval_hash, job.args_hash = hash_args_eval(self.type_registry, job.task, args, kwargs)
